@@ -88,7 +88,7 @@ Proof.
     apply andb_prop in Hn. destruct Hn as [Hn1 Hn2].
     apply negb_true_iff in Hn1. apply negb_true_iff in Hn2.
     destruct n as [|c n]; [discriminate Hn2|]. cbn [or_none].
-    rewrite andb_false_r. cbn [trans]. unfold SchemaTr.replace, d_has, d_get. rewrite Hn1.
+    rewrite andb_false_r. cbn [trans]. unfold SchemaTr.replace, effective, d_has, d_get. rewrite Hn1.
     rewrite !andb_false_r. cbn [orb]. unfold SchemaTr.target. cbn [r_map r_name].
     cbn [orb] in Hf. unfold has_key in *.
     match goal with |- context [assoc ?k m] => destruct (assoc k m) as [v|] eqn:Ha end.
@@ -100,7 +100,7 @@ Proof.
       cbn [orb] in Hf. destruct fc; [discriminate Hf|reflexivity].
   - (* schema None *)
     destruct inc; cbn [andb negb] in *.
-    + inversion Hp; subst; clear Hp. cbn [trans]. unfold SchemaTr.replace, d_has, d_get.
+    + inversion Hp; subst; clear Hp. cbn [trans]. unfold SchemaTr.replace, effective, d_has, d_get.
       rewrite str_eqb_refl. rewrite Hm. rewrite !andb_true_r, orb_false_r.
       unfold SchemaTr.target. cbn [r_map r_name]. fold (has_none m).
       destruct (has_none m) eqn:Hh; cbn [negb bind].
@@ -271,6 +271,17 @@ Proof.
 Qed.
 
 (* ---- a statement without translatable references / an empty map ---- *)
+Theorem direct_untranslated : forall m s, untranslated m s = true -> direct m s = Ok (compile_plain s).
+Proof.
+  intros m s Hu. unfold SchemaTr.direct.
+  assert (subst_schemas m s = Ok s) as ->; [|reflexivity].
+  induction s as [|i s IH]; [reflexivity|].
+  unfold untranslated in *. cbn [forallb] in Hu. apply andb_prop in Hu. destruct Hu as [H1 H2].
+  destruct i as [t|x]; cbn [SchemaTr.subst_schemas]; rewrite (IH H2); [reflexivity|].
+  unfold SchemaTr.target. destruct (r_map x); [|reflexivity]. cbn [negb orb] in H1.
+  apply negb_true_iff in H1. unfold has_key in H1. destruct (assoc (r_name x) m); [discriminate H1|reflexivity].
+Qed.
+
 Lemma scan_plain : forall repl t, occurs marker t = false -> scan repl t = Ok t.
 Proof.
   intros repl t H. pose proof (scan_lit repl t [] H (or_introl eq_refl)) as E.
